@@ -32,7 +32,7 @@ import os
 
 from mc.checks import c06_schema as S
 
-GROUP_LABELS = ("dotted-group", "dataclass-group", "class-group", "parser-group")
+GROUP_LABELS = S.GROUP_LIKE
 
 
 def text(v):
@@ -103,7 +103,7 @@ def argv_tokens(rec, value, style, leftover=None, _depth=0):
 
 
 def _argv_json(node, v, name, toks):
-    if node["k"] == "rec" and node["label"] == "dotted-group":
+    if node["k"] == "rec" and node["label"] in S.NO_OWN_OPTION:
         # a dotted group has no option of its own: its members are the options
         if v is None:
             raise Inexpressible("null dotted group on argv")
@@ -121,7 +121,7 @@ def _argv_json(node, v, name, toks):
 def _argv_flat(node, v, name, toks, style):
     k = node["k"]
     if v is None:
-        if k == "rec" and node["label"] == "dotted-group":
+        if k == "rec" and node["label"] in S.NO_OWN_OPTION:
             raise Inexpressible("null dotted group on argv")
         toks.append(f"--{name}=null")
     elif k == "leaf" or (k == "rec" and node["label"] == "typed-dict"):
@@ -145,7 +145,7 @@ def _argv_flat(node, v, name, toks, style):
         toks.append(f"--{name}={v['class_path']}")
         cls = v["class_path"].rsplit(".", 1)[1]
         prefix = name if style == "short" else f"{name}.init_args"
-        _argv_flat(S.init_args_rec(cls), v.get("init_args", {}), prefix, toks, style)
+        _argv_flat(S.init_args_rec(cls, node.get("linked", ())), v.get("init_args", {}), prefix, toks, style)
     elif k == "list":
         if style == "append" and "." not in name and all(_plain_item(node["of"], item) for item in v):
             for item in v:
@@ -199,7 +199,7 @@ def env_vars(rec, value, style, prefix="APP_"):
 def _env_node(node, v, name, out, style):
     k = node["k"]
     var = name.replace(".", "__").upper()
-    if k == "rec" and node["label"] == "dotted-group":
+    if k == "rec" and node["label"] in S.NO_OWN_OPTION:
         if v is None:
             raise Inexpressible("null dotted group in the environment")
         for key, sub in v.items():
@@ -412,6 +412,10 @@ def deliver(shape_name, cfg, channel, leftover=None, parser=None):
         kind, data = render(shape_name, cfg, channel, leftover)
     except Inexpressible as ex:
         return {"kind": "inexpressible", "why": str(ex)}, None
+    if "nodefaults" in flags and not all(S.has_key(cfg, src) for src in S.link_sources(shape)):
+        # a link takes the value of its source; with defaults=False a source that is not given has none
+        # ('Key "src.size" not found in namespace') - how links behave without defaults is C15's, not a key check
+        return {"kind": "inexpressible", "why": "defaults=False and a link source without a given value"}, None
     shown = copy.deepcopy(data)
     if base in ("object", "object-dotted"):
         parser = S_build(shape, exit_on_error=exit_on_error)
